@@ -94,9 +94,11 @@ impl ReturnType for UnaryOperation {
         let return_type = self.instruction.return_type();
         match self.op {
             // the operand is an iterator or of type `!` (which yields nothing)
-            UnaryOperator::Sum | UnaryOperator::Product => {
-                return_type.iter_element().unwrap_or(Type::Never)
-            }
+            UnaryOperator::Sum | UnaryOperator::Product => match return_type.iter_element() {
+                // an iterator that yields nothing (`[]~`) sums to the int 0 and multiplies to the int 1
+                Some(Type::Never) => Type::Int,
+                element => element.unwrap_or(Type::Never),
+            },
             UnaryOperator::Not | UnaryOperator::UnaryMinus => return_type,
             UnaryOperator::Indirection => indirection::return_type(return_type),
             UnaryOperator::FunctionCall => return_type.return_type().unwrap(),
